@@ -23,6 +23,9 @@ func genNetConfig(ch *Chooser, prop, tier string, disabled map[string]bool) *Run
 	}
 	genByzantine(ch, cfg, nb)
 	cfg.StorageOrder = ch.Pick("st-order", 4)
+	if prop == "C12" {
+		cfg.LenientNilBlock = ch.Pick("lenient-nil-block", 2) == 1
+	}
 	cfg.MaxSteps = lim.MaxSteps
 	cfg.MaxLatencyMs = []int{1, 5, 20, 200}[ch.Pick("maxlat", 4)]
 	cfg.Window = []int{1, 2, 4, 16, 1000}[ch.Pick("window", 5)]
